@@ -390,5 +390,20 @@ func (n *Node) View(txs []pb.Transaction) []*pb.Receipt {
 	return n.ViewExec.ApplyReadonlyTransactions(txs)
 }
 
+// FreshView applies read-only transactions on a view executor made for the occasion (a new state-ledger instance over the
+// same store): what a view executor that has never executed anything answers.
+func (n *Node) FreshView(txs []pb.Transaction) ([]*pb.Receipt, error) {
+	vs, err := ledger.NewSimpleLedger(n.Repo, n.stateDB, nil, n.logger)
+	if err != nil {
+		return nil, err
+	}
+	vl := &ledger.Ledger{ChainLedger: n.Ledger.ChainLedger, StateLedger: vs}
+	ve, err := executor.New(vl, n.logger, &appchain.Client{}, n.Repo.Config, big.NewInt(0))
+	if err != nil {
+		return nil, err
+	}
+	return ve.ApplyReadonlyTransactions(txs), nil
+}
+
 // Dir returns the node directory.
 func (n *Node) Dir() string { return filepath.Clean(n.opt.Dir) }
